@@ -179,7 +179,13 @@ def run(ctx):
     ctx.cov["distinct_nontrivial"] += count_distinct(tp0, lambda e: json.dumps([e["ev"], e["t"], key_of(e), e.get("k")]), lambda e: True)
     need, mins = parse_notes(res.notes)
     panics = 0
-    for (line, ev, info, _) in res.rejected:
+    # one representative of every (class, kind) first: only a dozen violations are written out as replay files
+    seen, first, rest = set(), [], []
+    for rj in res.rejected:
+        c = (rj[2].split(",")[0], rj[1].get("ev"))
+        (rest if c in seen else first).append(rj)
+        seen.add(c)
+    for (line, ev, info, _) in first + rest:
         parts = [x.strip().strip('"') for x in info.split(",")]
         cls = parts[0] if parts else "?"
         bits = parts[1] if len(parts) > 1 else "?"
